@@ -30,9 +30,33 @@ func (e *Enc) script() string {
 		uf := e.p.ufs[k]
 		fmt.Fprintf(&b, "(declare-fun %s (%s) %s)\n", k, strings.Join(uf.args, " "), uf.res)
 	}
+	// contract-level uninterpreted functions with their definitional axioms
+	for _, k := range sortedKeys(e.p.cs.UFs) {
+		if !e.usedUF[k] {
+			continue
+		}
+		uf := e.p.cs.UFs[k]
+		var decl, sorts, args []string
+		vars := map[string]CVal{}
+		for _, pa := range uf.Params {
+			n := "u_" + pa.Name
+			decl = append(decl, "("+n+" Int)")
+			sorts = append(sorts, "Int")
+			args = append(args, n)
+			vars[pa.Name] = CVal{T: Term{n, sInt}}
+		}
+		e.inQuant++
+		body := (&Ctx{e: e, st: e.init, old: e.init, vars: vars}).evalInt(uf.Body)
+		e.inQuant--
+		fmt.Fprintf(&b, "(declare-fun uf_%s (%s) Int)\n", k, strings.Join(sorts, " "))
+		fmt.Fprintf(&b, "(assert (forall (%s) (! (= (uf_%s %s) %s) :pattern ((uf_%s %s)))))\n", strings.Join(decl, " "), k, strings.Join(args, " "), body.S, k, strings.Join(args, " "))
+	}
 	for _, k := range sortedKeys(e.heapInits) {
 		t := e.heapInits[k]
 		fmt.Fprintf(&b, "(declare-const %s %s)\n", t.S, t.Sort)
+		if ax := e.heapTyping(k, t); ax != "" {
+			b.WriteString(ax + "\n")
+		}
 	}
 	// function values are pairwise distinct and non-nil
 	var fns []string
@@ -52,42 +76,27 @@ func (e *Enc) script() string {
 }
 
 type splitCase struct {
-	label  string
-	assert string
+	label string
+	vals  []int64
+	rest  bool
 }
 
-// cases enumerates the split cases of a function contract (cartesian product + remainder).
-func (e *Enc) cases() []splitCase {
-	if e.fc == nil || len(e.fc.Splits) == 0 {
-		return []splitCase{{"", ""}}
+// splitCases enumerates the split cases of a function contract (cartesian product + remainder).
+func splitCases(splits []SplitSpec) []splitCase {
+	if len(splits) == 0 {
+		return []splitCase{{}}
 	}
-	ctx0 := e.ctx(e.init, e.init, nil)
-	type dim struct {
-		term   string
-		lo, hi int64
-		text   string
-	}
-	var dims []dim
-	for _, s := range e.fc.Splits {
-		t := ctx0.evalInt(s.E)
-		dims = append(dims, dim{t.S, s.Lo, s.Hi, s.Text})
-	}
-	out := []splitCase{{"", ""}}
-	for _, d := range dims {
+	out := []splitCase{{}}
+	for _, d := range splits {
 		var next []splitCase
 		for _, c := range out {
-			for v := d.lo; v <= d.hi; v++ {
-				next = append(next, splitCase{c.label + fmt.Sprintf("%s=%d ", d.text, v), c.assert + fmt.Sprintf("(assert (= %s %d))\n", d.term, v)})
+			for v := d.Lo; v <= d.Hi; v++ {
+				next = append(next, splitCase{label: c.label + fmt.Sprintf("%s=%d ", d.Text, v), vals: append(append([]int64{}, c.vals...), v)})
 			}
 		}
 		out = next
 	}
-	// remainder: some split expression outside its range
-	var outside []string
-	for _, d := range dims {
-		outside = append(outside, fmt.Sprintf("(< %s %d) (> %s %d)", d.term, d.lo, d.term, d.hi))
-	}
-	out = append(out, splitCase{"remainder ", fmt.Sprintf("(assert (or %s))\n", strings.Join(outside, " "))})
+	out = append(out, splitCase{label: "remainder ", rest: true})
 	return out
 }
 
@@ -105,38 +114,35 @@ func cloneObl(o *Obl, c string) *Obl {
 	return &n
 }
 
-// verifyFunc encodes and discharges all obligations of one function.
-func verifyFunc(p *Program, fn *ssa.Function, fc *FuncC, timeoutS int, filter func(*Obl) bool) *FuncResult {
+// verifyFunc encodes and discharges all obligations of one function, with one
+// specialised encoding per split case.
+func verifyFunc(p *Program, fn *ssa.Function, fc *FuncC, timeoutS int, filter0 func(*Obl) bool) *FuncResult {
 	res := &FuncResult{Name: funcName(fn)}
-	e := newEnc(p, fn, fc)
-	if err := e.Encode(); err != nil {
-		res.Err = err.Error()
-		return res
+	type phaseCase struct {
+		splitCase
+		phase int
 	}
-	res.Warnings = e.warnings
-	if len(e.obls) == 0 {
-		return res
+	var casesList []phaseCase
+	if fc != nil && fc.Cut != nil {
+		for _, c := range splitCases(fc.Splits) {
+			c.label = "phase1 " + c.label
+			casesList = append(casesList, phaseCase{c, 1})
+		}
+		for _, c := range splitCases(fc.Cut.Splits) {
+			c.label = "phase2 " + c.label
+			casesList = append(casesList, phaseCase{c, 2})
+		}
+	} else if fc != nil {
+		for _, c := range splitCases(fc.Splits) {
+			casesList = append(casesList, phaseCase{c, 0})
+		}
+	} else {
+		casesList = []phaseCase{{}}
 	}
-	var casesList []splitCase
-	func() {
-		defer func() {
-			if r := recover(); r != nil {
-				if ee, ok := r.(evalError); ok {
-					res.Err = "contract error in split: " + ee.msg
-					return
-				}
-				panic(r)
-			}
-		}()
-		casesList = e.cases()
-	}()
-	if res.Err != "" {
-		return res
-	}
-	prefix := e.script()
 	res.Cases = len(casesList)
 	var mu sync.Mutex
 	var wg sync.WaitGroup
+	caseSem := make(chan struct{}, 24)
 	for _, cs := range casesList {
 		cs := cs
 		if f := os.Getenv("GVC_CASE"); f != "" && !strings.Contains(cs.label, f) {
@@ -145,6 +151,25 @@ func verifyFunc(p *Program, fn *ssa.Function, fc *FuncC, timeoutS int, filter fu
 		wg.Add(1)
 		go func() {
 			defer wg.Done()
+			caseSem <- struct{}{}
+			defer func() { <-caseSem }()
+			filter := filter0
+			e := newEnc(p, fn, fc)
+			e.caseVals, e.caseRest, e.caseLabel, e.phase = cs.vals, cs.rest, cs.label, cs.phase
+			if err := e.Encode(); err != nil {
+				mu.Lock()
+				if res.Err == "" {
+					res.Err = err.Error()
+				}
+				mu.Unlock()
+				return
+			}
+			mu.Lock()
+			if len(e.warnings) > 0 && len(res.Warnings) == 0 {
+				res.Warnings = e.warnings
+			}
+			mu.Unlock()
+			prefix := e.script()
 			obls := e.obls
 			if f := os.Getenv("GVC_OBL"); f != "" {
 				var fl []*Obl
@@ -170,51 +195,55 @@ func verifyFunc(p *Program, fn *ssa.Function, fc *FuncC, timeoutS int, filter fu
 			if len(obls) == 0 {
 				return
 			}
-			// batch: all selected obligations at once
-			var goal string
-			{
-				var parts []string
-				if filter == nil {
-					parts = append(parts, e.okCur)
-				}
-				for _, o := range obls {
-					if filter != nil || o.terminal {
-						parts = append(parts, fmt.Sprintf("(=> %s %s)", o.okPre, o.obSym))
-					}
-				}
-				goal = fmt.Sprintf("(assert (not (and %s)))\n", strings.Join(parts, " "))
-			}
-			r := solveStaged(prefix+cs.assert+goal+"(check-sat)\n", timeoutS)
-			if r.Result == "unsat" {
+			// batch first; on failure bisect down to the failing obligations
+			record := func(os []*Obl, r solveResult) {
 				mu.Lock()
-				for _, o := range obls {
+				for _, o := range os {
 					n := cloneObl(o, cs.label)
-					n.Result, n.Solver, n.TimeS = "unsat", r.Solver, r.TimeS/float64(len(obls))
+					n.Result, n.Solver, n.TimeS = r.Result, r.Solver, r.TimeS/float64(len(os))
+					if r.Result != "unsat" {
+						n.Model = r.Output
+					}
 					res.Obls = append(res.Obls, n)
 				}
 				mu.Unlock()
-				return
 			}
-			// pinpoint
-			var wg2 sync.WaitGroup
-			for _, o := range obls {
-				o := o
-				wg2.Add(1)
-				go func() {
-					defer wg2.Done()
-					q := prefix + cs.assert + fmt.Sprintf("(assert %s)\n(assert (not %s))\n(check-sat)\n", o.okPre, o.obSym)
-					r := solveStaged(q, timeoutS)
-					n := cloneObl(o, cs.label)
-					n.Result, n.Solver, n.TimeS = r.Result, r.Solver, r.TimeS
-					if r.Result == "error" {
-						n.Model = r.Output
+			goalOf := func(os []*Obl, whole bool) string {
+				var parts []string
+				if whole && filter == nil {
+					parts = append(parts, e.okCur)
+					for _, o := range os {
+						if o.terminal {
+							parts = append(parts, fmt.Sprintf("(=> %s %s)", o.okPre, o.obSym))
+						}
 					}
-					mu.Lock()
-					res.Obls = append(res.Obls, n)
-					mu.Unlock()
-				}()
+				} else {
+					for _, o := range os {
+						parts = append(parts, fmt.Sprintf("(=> %s %s)", o.okPre, o.obSym))
+					}
+				}
+				return fmt.Sprintf("(assert (not (and %s)))\n", strings.Join(parts, " "))
 			}
-			wg2.Wait()
+			var rec func(os []*Obl, whole bool)
+			rec = func(os []*Obl, whole bool) {
+				var r solveResult
+				if len(os) == 1 {
+					r = solveStaged(prefix+fmt.Sprintf("(assert %s)\n(assert (not %s))\n(check-sat)\n", os[0].okPre, os[0].obSym), timeoutS)
+				} else {
+					r = solveStaged(prefix+goalOf(os, whole)+"(check-sat)\n", timeoutS)
+				}
+				if r.Result == "unsat" || len(os) == 1 {
+					record(os, r)
+					return
+				}
+				mid := len(os) / 2
+				var wg3 sync.WaitGroup
+				wg3.Add(2)
+				go func() { defer wg3.Done(); rec(os[:mid], false) }()
+				go func() { defer wg3.Done(); rec(os[mid:], false) }()
+				wg3.Wait()
+			}
+			rec(obls, true)
 		}()
 	}
 	wg.Wait()
